@@ -189,8 +189,14 @@ def run(module, cfg, *, workers=None, simulate=None, depth=None, seed=None, dump
         p = subprocess.run(cmd, capture_output=True, text=True, env=e, timeout=timeout,
                            cwd=cwd or os.path.dirname(os.path.abspath(module)))
     except subprocess.TimeoutExpired as ex:
+        if metadir is None:
+            shutil.rmtree(wd, ignore_errors=True)
         raise MachineryError('TLC timed out after %ss: %s' % (timeout, res.cmd)) from ex
     res.wall = time.time() - t0
+    if metadir is None:            # the state files of this run are not needed any more
+        shutil.rmtree(wd, ignore_errors=True)
+        if wd in _WORK:
+            _WORK.remove(wd)
     res.rc = p.returncode
     out = p.stdout + ('\n' + p.stderr if p.stderr.strip() else '')
     res.out = out
